@@ -1,7 +1,8 @@
 """C08 - close() completes once, with the right verdict, and frees server resources."""
 from ..mailbox_work import build_case, trace_digest, events_view
 from ..apps import WApp
-from ..env import client_link, rc_of
+from ..env import client_link, rc_of, World
+from ..sched import Scheduler
 from ..monitors import MON, state_of
 
 PID = "C08"
@@ -18,8 +19,8 @@ ASSUMPTIONS = ["a mailbox whose id the client never learned (close before `claim
                "bounded progress: 300 virtual seconds of stable connectivity"]
 FLOORS = {"quick": {"closed_sides": 1500, "close_mid_protocol": 500, "verdict_Lonely": 50, "verdict_happy": 50,
                     "verdict_WrongPassword": 10, "verdict_ServerError": 5, "verdict_WelcomeError": 5,
-                    "gets_after_closed": 3000, "unread_backlog_at_closed": 30},
-          "thorough": {"closed_sides": 30000, "close_mid_protocol": 10000, "gets_after_closed": 100000, "unread_backlog_at_closed": 1000}}
+                    "gets_after_closed": 3000, "unread_backlog_at_closed": 30, "unreachable_cases": 30},
+          "thorough": {"closed_sides": 30000, "close_mid_protocol": 10000, "gets_after_closed": 100000, "unread_backlog_at_closed": 1000, "unreachable_cases": 800}}
 MOOD = {"happy": "happy", "LonelyError": "lonely", "WrongPasswordError": "scary",
         "ServerError": "errory", "WelcomeError": "unwelcome"}
 
@@ -56,6 +57,8 @@ def cases(tier, seed, prep=None):
         who = "ab"[i % 2]
         out.append({"kind": "closerandom", "seed": seed * 1000003 + 950000 + i, "mode": "tcp", "min_msgs": 2,
                     "cfg_over": {"api_" + who: "deferred", "get_" + who: ["never", "lazy"][i // 2 % 2], "get_limit": i % 3}})
+    for i in range(36 if q else 900):
+        out.append({"kind": "unreachable", "seed": seed * 1000003 + 960000 + i, "how": ["refused", "silent", "no-such-name"][i % 3], "api": ["deferred", "delegate"][i // 3 % 2]})
     for i in range(40 if q else 1200):
         out.append({"kind": "mismatch", "seed": seed * 1000003 + 910000 + i, "close_at": (i * 7) % 160, "who": "AB"[i % 2]})
     for i in range(30 if q else 800):
@@ -66,6 +69,65 @@ def cases(tier, seed, prep=None):
         out.append({"kind": "unwelcome", "seed": seed * 1000003 + 930000 + i, "welcome_error": "go away %d" % i,
                     "close_at": (i * 5) % 60, "who": "AB"[i % 2]})
     return out
+
+
+def run_unreachable(spec):
+    """the very first connection to the mailbox server fails (refused, or no answer at all, or the name does not
+    resolve): the wormhole ends by itself with ServerConnectionError - told once, every get_*() and close() fail with it"""
+    from ..env import MAILBOX_PORT
+    world = World(spec["seed"])
+    rng = world.work_rng
+    r = world.reactor
+    how = spec["how"]
+    if how == "refused":
+        r.refuse.add("10.9.9.1")
+    elif how == "silent":
+        r.unroutable.add("10.9.9.1")
+    else:
+        r.names["mailbox.sim"] = None        # resolution finishes without an address
+    app = WApp(world, "A", api=spec["api"])
+    sch = Scheduler(world, None, strategy="random", chunking="whole")
+    calls = rng.sample(["set_code", "allocate_code", "send", "close-early"], rng.randint(0, 3))
+    for c in calls:
+        try:
+            if c == "set_code":
+                app.call("set_code", "4-purple-sausages")
+            elif c == "allocate_code":
+                app.call("allocate_code")
+            elif c == "send":
+                app.send(b"queued")
+        except Exception:
+            pass
+    if "close-early" in calls:
+        app.close()
+    sch.drain(400.0, 20000, until=lambda: app.closed or any(k.endswith("-err") for k in app.kinds()))
+    sch.drain(5.0, 1000)
+    if not app.close_calls:
+        app.close()
+    sch.drain(120.0, 5000, until=lambda: app.closed)
+    viol = []
+    wit = {"spec": spec, "events": events_view(app), "calls": app.calls[:10], "close": app.close_results, "netlog_tail": r.netlog[-10:]}
+    ok_verdicts = ("ServerConnectionError", "LonelyError") if "close-early" in calls else ("ServerConnectionError",)
+    if not app.closed:
+        viol.append({"key": "C08/close-never-completes/server-unreachable", "msg": "the server cannot be reached (%s): no closed notification within 400+120 virtual s" % how, "witness": wit})
+    else:
+        if len(set(app.close_results)) != 1 or app.close_results[0] not in ok_verdicts:
+            viol.append({"key": "C08/verdict/%s-instead-of-ServerConnectionError" % app.close_results[0], "msg": "server unreachable (%s), verdicts %r" % (how, app.close_results), "witness": wit})
+        kinds = app.kinds()
+        if app.api == "delegate" and kinds.count("closed") != 1:
+            viol.append({"key": "C08/closed-notification-count", "msg": "%s" % kinds, "witness": wit})
+        if any(k in kinds for k in ("key", "verifier", "versions", "msg")):
+            viol.append({"key": "C08/event-without-a-server", "msg": "%s" % kinds, "witness": wit})
+    # the client must have stopped trying
+    t0 = len(r.netlog)
+    sch.drain(300.0, 5000)
+    dials = [x for x in r.netlog[t0:] if x[0] == "dial"]
+    if app.closed and dials:
+        viol.append({"key": "C08/still-dialling-after-closed", "msg": "%d connection attempts to the server after the closed notification" % len(dials), "witness": wit})
+    world.finish()
+    v = app.close_results[0] if app.close_results else "none"
+    return {"violations": viol, "nontrivial": ["unreachable", how, spec["api"], tuple(calls)], "counters": {"closed_sides": int(app.closed), "unreachable_cases": 1,
+            "verdict_ServerConnection": int(v == "ServerConnectionError")}, "sets": {"verdicts": [v]}, "sample": {"spec": spec, "verdict": v}}
 
 
 def model_verdict(app):
@@ -92,6 +154,8 @@ def machine_states(app):
 
 
 def run_case(spec):
+    if spec["kind"] == "unreachable":
+        return run_unreachable(spec)
     kind = spec["kind"]
     sub = dict(spec)
     sub["kind"] = "sweep" if "cut" in spec else "plain"
